@@ -179,4 +179,192 @@ theorem metadata_untouched (P : Prims) (d : Decoder) (id gen : Nat) (data : Byte
   · rfl
   · rw [if_pos ⟨by simp [hem], h⟩]
 
+/-! ## Passwords, revisions 2–4: `from_password` decides exactly what Algorithms 6 and 7 decide -/
+
+/-- the comparison of Algorithm 6 for a candidate key -/
+def UCheck (H : Hashes) (r : Nat) (u id k : Bytes) : Prop :=
+  if r = 2 then makeU H 2 k id [] = u else makeU H r k id [] = u.take 16
+
+instance (H : Hashes) (r : Nat) (u id k : Bytes) : Decidable (UCheck H r u id k) := by unfold UCheck; infer_instance
+
+theorem authUser_eq (H : Hashes) (r n : Nat) (o u : Bytes) (p : Int) (id : Bytes) (em : Bool) (pw : Bytes) :
+    authUser H r n o u p id em pw =
+      if UCheck H r u id ((alg2Digest H r n o p id em pw).take n) then some (alg2Digest H r n o p id em pw) else none := by
+  unfold authUser UCheck
+  by_cases h2 : r = 2 <;> simp [h2]
+
+/-- **`from_password`, revisions 2–4, is Algorithms 6 + 7.** For every encryption dictionary whose
+    `V`/`Length`/`CF` entries select an `n`-byte key (1 ≤ n ≤ 16, i.e. in particular 40..128 bits), every
+    document id and every password: the model accepts exactly when the standard's authentication does, the
+    decoder holds the Algorithm 2 digest (whose first `n` bytes are the file key), and a password both
+    algorithms reject yields `InvalidPassword` — never another error, never a panic. The owner path of the
+    code applies the twenty RC4 passes in the order 0…19 where Algorithm 7 says 19…0: `rc4Chain_reverse`. -/
+theorem from_password_rc4 {P : Prims} {H : Hashes} (hp : PrimsAgree P H) (hw : H.WF) (d : CryptDict) (id pass : Bytes)
+    (n : Nat) (m : Method) (hsel : selectMethod d = .ok (8 * n, m)) (hn : 1 ≤ n ∧ n ≤ 16) (hr : 2 ≤ d.r ∧ d.r ≤ 4) :
+    fromPassword P d id pass = .ok (match authenticate H d.r n d.o d.u d.p id d.encryptMetadata pass with
+      | some dg => .decoder (Decoder.mk' dg n m d.encryptMetadata)
+      | none => .invalidPassword) := by
+  have hlen : ∀ pw, ((alg2Digest H d.r n d.o d.p id d.encryptMetadata pw).take n).length = n := by
+    intro pw; rw [List.length_take, alg2Digest_length hw]; omega
+  have hvalid : ∀ pw, validKey ((alg2Digest H d.r n d.o d.p id d.encryptMetadata pw).take n) := by
+    intro pw; unfold validKey; rw [hlen]; omega
+  have hwk : validKey (alg3Key H d.r n pass) := by
+    unfold validKey alg3Key
+    have : ((if d.r ≥ 3 then iter H.md5 50 (H.md5 (pad32 pass)) else H.md5 (pad32 pass))).length = 16 := by
+      by_cases h3 : d.r ≥ 3
+      · rw [if_pos h3]; exact iter_length hw.md5_len _ _ (hw.md5_len _)
+      · rw [if_neg h3]; exact hw.md5_len _
+    rw [List.length_take, this]; omega
+  unfold fromPassword
+  rw [hsel, Out.bind_ok]
+  simp only []
+  rw [if_neg (by omega), if_pos (by omega)]
+  unfold fromPasswordRc4
+  simp only [show 8 * n / 8 = n by omega]
+  rw [if_neg (by omega)]
+  simp only [keyDerivUser_eq hp d.r n hn.2, Out.bind_ok, Nat.min_eq_left hn.2,
+    checkPasswordRc4_eq hp hw d.r d.u id _ (hvalid _), keyDerivOwner_eq hp hw d.r n hn.2]
+  unfold authenticate
+  rw [authUser_eq]
+  by_cases hc1 : UCheck H d.r d.u id ((alg2Digest H d.r n d.o d.p id d.encryptMetadata pass).take n)
+  · have hc1' := hc1; unfold UCheck at hc1'
+    simp only [hc1', decide_true, if_true, hc1]
+  · have hc1' := hc1; unfold UCheck at hc1'
+    simp only [hc1', decide_false, if_false, hc1, Bool.false_eq_true]
+    -- the owner path
+    have hrounds : roundList 0 (if d.r = 2 then 1 else 20) = (if d.r ≥ 3 then List.range 20 else [0]).map UInt8.ofNat := by
+      by_cases h2 : d.r = 2
+      · rw [if_pos h2, if_neg (by omega)]; rfl
+      · rw [if_neg h2, if_pos (by omega), roundList_eq]; simp
+    rw [hrounds, rc4Rounds_eq hwk, Out.bind_ok]
+    have hrev : rc4Chain (alg3Key H d.r n pass) (if d.r ≥ 3 then List.range 20 else [0]) d.o =
+        rc4Chain (alg3Key H d.r n pass) (if d.r ≥ 3 then (List.range 20).reverse else [0]) d.o := by
+      by_cases h3 : d.r ≥ 3
+      · rw [if_pos h3, if_pos h3, rc4Chain_reverse]
+      · rw [if_neg h3, if_neg h3]
+    rw [hrev]
+    unfold authOwner
+    rw [authUser_eq]
+    generalize rc4Chain (alg3Key H d.r n pass) (if d.r ≥ 3 then (List.range 20).reverse else [0]) d.o = upw
+    by_cases hc2 : UCheck H d.r d.u id ((alg2Digest H d.r n d.o d.p id d.encryptMetadata upw).take n)
+    · have hc2' := hc2; unfold UCheck at hc2'
+      simp only [hc2', decide_true, if_true, hc2]
+    · have hc2' := hc2; unfold UCheck at hc2'
+      simp only [hc2', decide_false, if_false, hc2, Bool.false_eq_true]
+
+/-- what a conforming writer puts into `/O` and `/U` (Algorithms 3, 4, 5) for revisions 2–4 -/
+structure WrittenRc4 (H : Hashes) (d : CryptDict) (id0 : Bytes) (n : Nat) (userPw ownerPw tail : Bytes) : Prop where
+  o : d.o = makeO H d.r n ownerPw userPw
+  u : d.u = makeU H d.r (alg2Key H d.r n d.o d.p id0 d.encryptMetadata userPw) id0 tail
+
+theorem ucheck_written {H : Hashes} (hw : H.WF) {d : CryptDict} {id0 : Bytes} {n : Nat} {userPw ownerPw tail : Bytes}
+    (w : WrittenRc4 H d id0 n userPw ownerPw tail) :
+    UCheck H d.r d.u id0 ((alg2Digest H d.r n d.o d.p id0 d.encryptMetadata userPw).take n) := by
+  unfold UCheck
+  rw [w.u]
+  unfold alg2Key makeU
+  by_cases h2 : d.r = 2
+  · simp [h2]
+  · simp only [if_neg h2, List.append_nil]
+    rw [List.take_left']
+    rw [rc4Chain_length, hw.md5_len]
+
+theorem alg2Digest_pad32 (H : Hashes) (r n : Nat) (o : Bytes) (p : Int) (id0 : Bytes) (em : Bool) (pw : Bytes) :
+    alg2Digest H r n o p id0 em (pad32 pw) = alg2Digest H r n o p id0 em pw := by
+  unfold alg2Digest; rw [pad32_idem]
+
+/-- **the user password is accepted** (revisions 2–4) and the decoder holds the very key the writer
+    derived with Algorithm 2 — for every key length 1..16 bytes, every password (any length, any bytes),
+    `/P`, document id and `EncryptMetadata` flag. -/
+theorem user_password_accepted_rc4 {P : Prims} {H : Hashes} (hp : PrimsAgree P H) (hw : H.WF) (d : CryptDict) (id0 : Bytes)
+    (n : Nat) (m : Method) (hsel : selectMethod d = .ok (8 * n, m)) (hn : 1 ≤ n ∧ n ≤ 16) (hr : 2 ≤ d.r ∧ d.r ≤ 4)
+    (userPw ownerPw tail : Bytes) (w : WrittenRc4 H d id0 n userPw ownerPw tail) :
+    ∃ dec, fromPassword P d id0 userPw = .ok (.decoder dec) ∧ dec.method = m ∧ dec.encryptMetadata = d.encryptMetadata ∧
+      dec.keyOf = .ok (alg2Key H d.r n d.o d.p id0 d.encryptMetadata userPw) := by
+  rw [from_password_rc4 hp hw d id0 userPw n m hsel hn hr]
+  unfold authenticate
+  rw [authUser_eq, if_pos (ucheck_written hw w)]
+  refine ⟨_, rfl, rfl, rfl, ?_⟩
+  simp only [Decoder.keyOf, Decoder.mk', alg2Key, Nat.min_eq_left hn.2]
+  rw [if_pos (by rw [alg2Digest_length hw]; exact hn.2)]
+
+/-- **the owner password is accepted** (revisions 2–4) with the same file key. The only assumption beyond
+    the primitives being functions: *if* the owner password, tried as a user password, happens to
+    reproduce `/U` (an RC4/MD5 collision unless both passwords pad to the same 32 bytes), then it does so
+    with the same key. -/
+theorem owner_password_accepted_rc4 {P : Prims} {H : Hashes} (hp : PrimsAgree P H) (hw : H.WF) (d : CryptDict) (id0 : Bytes)
+    (n : Nat) (m : Method) (hsel : selectMethod d = .ok (8 * n, m)) (hn : 1 ≤ n ∧ n ≤ 16) (hr : 2 ≤ d.r ∧ d.r ≤ 4)
+    (userPw ownerPw tail : Bytes) (w : WrittenRc4 H d id0 n userPw ownerPw tail)
+    (hcoll : UCheck H d.r d.u id0 ((alg2Digest H d.r n d.o d.p id0 d.encryptMetadata ownerPw).take n) →
+      (alg2Digest H d.r n d.o d.p id0 d.encryptMetadata ownerPw).take n = alg2Key H d.r n d.o d.p id0 d.encryptMetadata userPw) :
+    ∃ dec, fromPassword P d id0 ownerPw = .ok (.decoder dec) ∧ dec.method = m ∧ dec.encryptMetadata = d.encryptMetadata ∧
+      dec.keyOf = .ok (alg2Key H d.r n d.o d.p id0 d.encryptMetadata userPw) := by
+  rw [from_password_rc4 hp hw d id0 ownerPw n m hsel hn hr]
+  unfold authenticate
+  rw [authUser_eq]
+  by_cases hc : UCheck H d.r d.u id0 ((alg2Digest H d.r n d.o d.p id0 d.encryptMetadata ownerPw).take n)
+  · rw [if_pos hc]
+    refine ⟨_, rfl, rfl, rfl, ?_⟩
+    simp only [Decoder.keyOf, Decoder.mk', Nat.min_eq_left hn.2]
+    rw [if_pos (by rw [alg2Digest_length hw]; exact hn.2), hcoll hc]
+  · rw [if_neg hc]
+    -- Algorithm 7 recovers the padded user password from /O
+    have hun : rc4Chain (alg3Key H d.r n ownerPw) (if d.r ≥ 3 then (List.range 20).reverse else [0]) d.o = pad32 userPw := by
+      rw [w.o]; unfold makeO
+      by_cases h3 : d.r ≥ 3
+      · rw [if_pos h3, if_pos h3, rc4Chain_reverse, rc4Chain_involution]
+      · rw [if_neg h3, if_neg h3, rc4Chain_involution]
+    unfold authOwner
+    simp only [hun]
+    rw [authUser_eq, alg2Digest_pad32, if_pos (ucheck_written hw w)]
+    refine ⟨_, rfl, rfl, rfl, ?_⟩
+    simp only [Decoder.keyOf, Decoder.mk', alg2Key, Nat.min_eq_left hn.2]
+    rw [if_pos (by rw [alg2Digest_length hw]; exact hn.2)]
+
+/-- **a wrong password is rejected with `InvalidPassword`** (revisions 2–4): whenever Algorithms 6 and 7
+    both fail for the password. -/
+theorem wrong_password_rejected_rc4 {P : Prims} {H : Hashes} (hp : PrimsAgree P H) (hw : H.WF) (d : CryptDict) (id0 pw : Bytes)
+    (n : Nat) (m : Method) (hsel : selectMethod d = .ok (8 * n, m)) (hn : 1 ≤ n ∧ n ≤ 16) (hr : 2 ≤ d.r ∧ d.r ≤ 4)
+    (hwrong : authenticate H d.r n d.o d.u d.p id0 d.encryptMetadata pw = none) :
+    fromPassword P d id0 pw = .ok .invalidPassword := by
+  rw [from_password_rc4 hp hw d id0 pw n m hsel hn hr, hwrong]
+
+theorem authenticate_some {H : Hashes} (hw : H.WF) (r n : Nat) (o u : Bytes) (p : Int) (id0 : Bytes) (em : Bool) (pw dg : Bytes)
+    (ha : authenticate H r n o u p id0 em pw = some dg) : dg.length = 16 ∧ UCheck H r u id0 (dg.take n) := by
+  unfold authenticate at ha
+  rw [authUser_eq] at ha
+  by_cases h1 : UCheck H r u id0 ((alg2Digest H r n o p id0 em pw).take n)
+  · rw [if_pos h1] at ha
+    injection ha with ha; subst ha
+    exact ⟨alg2Digest_length hw .., h1⟩
+  · rw [if_neg h1] at ha
+    simp only [authOwner] at ha
+    rw [authUser_eq] at ha
+    generalize rc4Chain (alg3Key H r n pw) (if r ≥ 3 then (List.range 20).reverse else [0]) o = upw at ha
+    by_cases h2 : UCheck H r u id0 ((alg2Digest H r n o p id0 em upw).take n)
+    · rw [if_pos h2] at ha
+      injection ha with ha; subst ha
+      exact ⟨alg2Digest_length hw .., h2⟩
+    · rw [if_neg h2] at ha; cases ha
+
+/-- … and only then: a password the model accepts is one the standard accepts, and the key the decoder
+    holds reproduces `/U` -/
+theorem accepted_only_if_authenticated_rc4 {P : Prims} {H : Hashes} (hp : PrimsAgree P H) (hw : H.WF) (d : CryptDict) (id0 pw : Bytes)
+    (n : Nat) (m : Method) (hsel : selectMethod d = .ok (8 * n, m)) (hn : 1 ≤ n ∧ n ≤ 16) (hr : 2 ≤ d.r ∧ d.r ≤ 4)
+    (dec : Decoder) (hacc : fromPassword P d id0 pw = .ok (.decoder dec)) :
+    ∃ dg, authenticate H d.r n d.o d.u d.p id0 d.encryptMetadata pw = some dg ∧ dec.keyOf = .ok (dg.take n) ∧
+      UCheck H d.r d.u id0 (dg.take n) := by
+  rw [from_password_rc4 hp hw d id0 pw n m hsel hn hr] at hacc
+  cases ha : authenticate H d.r n d.o d.u d.p id0 d.encryptMetadata pw with
+  | none => rw [ha] at hacc; cases hacc
+  | some dg =>
+    rw [ha] at hacc
+    have hd : dec = Decoder.mk' dg n m d.encryptMetadata := by
+      injection hacc with h; injection h with h; exact h.symm
+    have ⟨hl, hu⟩ := authenticate_some hw _ _ _ _ _ _ _ _ _ ha
+    refine ⟨dg, rfl, ?_, hu⟩
+    subst hd
+    simp only [Decoder.keyOf, Decoder.mk', Nat.min_eq_left hn.2]
+    rw [if_pos (by rw [hl]; exact hn.2)]
+
 end Crypt
